@@ -506,32 +506,77 @@ func c03Check(c c03Case) *Violation {
 					verbatim = append(verbatim, "")
 				}
 			}
-			refs := gb.Fields.References
-			if len(refs) != len(want) {
-				return viol("references", "%s: refs %q became %d references, want %d", name, c.Refs, len(refs), len(want))
-			}
-			for k, ref := range refs {
-				if ref.Number != k+1 {
-					return viol("references", "%s: reference %d numbered %d", name, k+1, ref.Number)
+			cmpRefs := func(name string, refs []seqio.Reference, want [][]int, verbatim []string, n int) *Violation {
+				if len(refs) != len(want) {
+					return viol("references", "%s: refs %q became %d references, want %d", name, c.Refs, len(refs), len(want))
 				}
-				if want[k] == nil {
-					if ref.Info != verbatim[k] {
-						return viol("references", "%s: unparsable info %q changed to %q", name, verbatim[k], ref.Info)
+				for k, ref := range refs {
+					if ref.Number != k+1 {
+						return viol("references", "%s: reference %d numbered %d", name, k+1, ref.Number)
 					}
+					if want[k] == nil {
+						if ref.Info != verbatim[k] {
+							return viol("references", "%s: unparsable info %q changed to %q", name, verbatim[k], ref.Info)
+						}
+						continue
+					}
+					rr, ok := parseRefInfo(ref.Info, c.counter())
+					if !ok {
+						return viol("references", "%s: clipped info %q is not a base range list", name, ref.Info)
+					}
+					gotSet := posSet(rr)
+					if fmt.Sprint(gotSet) != fmt.Sprint(want[k]) {
+						return viol("references", "%s: refs %q: reference %d covers %v after slicing (%q), want %v", name, c.Refs, k+1, gotSet, ref.Info, want[k])
+					}
+					for _, r := range rr {
+						if r[0] < 0 || r[1] > n || r[0] >= r[1] {
+							return viol("references", "%s: clipped range %v outside the slice (info %q)", name, r, ref.Info)
+						}
+					}
+				}
+				return nil
+			}
+			if v := cmpRefs(name, gb.Fields.References, want, verbatim, newLen); v != nil {
+				return v
+			}
+			// a slice of the slice: the record that came out (which now carries a REGION of its own) is cut again; its
+			// references follow the second window in the same way
+			for _, w := range [][2]int{{1, newLen}, {0, newLen - 1}, {newLen / 3, newLen - newLen/4}} {
+				s2, e2 := w[0], w[1]
+				if s2 < 0 || e2 <= s2 || e2 > newLen {
 					continue
 				}
-				rr, ok := parseRefInfo(ref.Info, c.counter())
+				var again gts.Sequence
+				if pi := guard(func() { again = gts.Slice(out, s2, e2) }); pi != nil {
+					return panicViolation(fmt.Sprintf("%s, then Slice(%d,%d) of the result", name, s2, e2), pi)
+				}
+				name2 := fmt.Sprintf("%s, then Slice(%d,%d) of the result", name, s2, e2)
+				if wantBytes := out.Bytes()[s2:e2]; !bytes.Equal(again.Bytes(), wantBytes) {
+					return viol("bytes", "%s: residues %q, want %q", name2, again.Bytes(), wantBytes)
+				}
+				gb2, ok := again.(seqio.GenBank)
 				if !ok {
-					return viol("references", "%s: clipped info %q is not a base range list", name, ref.Info)
+					return viol("carrier", "%s: result is %T, not a GenBank record", name2, again)
 				}
-				gotSet := posSet(rr)
-				if fmt.Sprint(gotSet) != fmt.Sprint(want[k]) {
-					return viol("references", "%s: refs %q: reference %d covers %v after slicing (%q), want %v", name, c.Refs, k+1, gotSet, ref.Info, want[k])
-				}
-				for _, r := range rr {
-					if r[0] < 0 || r[1] > newLen || r[0] >= r[1] {
-						return viol("references", "%s: clipped range %v outside the slice (info %q)", name, r, ref.Info)
+				var want2 [][]int
+				var verb2 []string
+				for k := range want {
+					if want[k] == nil {
+						want2, verb2 = append(want2, nil), append(verb2, verbatim[k])
+						continue
 					}
+					ps := []int{}
+					for _, q := range want[k] {
+						if s2 <= q && q < e2 {
+							ps = append(ps, q-s2)
+						}
+					}
+					if len(ps) > 0 {
+						want2, verb2 = append(want2, ps), append(verb2, "")
+					}
+				}
+				if v := cmpRefs(name2, gb2.Fields.References, want2, verb2, e2-s2); v != nil {
+					return v
 				}
 			}
 		}
